@@ -24,6 +24,7 @@ type GenOpts struct {
 	ActorBias int // weight of actor steps (default 15)
 	Rules     []string
 	RealCrypto bool
+	ActorWeights map[int]int // overrides the default weights of actor action kinds
 }
 
 var AllRules = []string{rules.NameChainedHotStuff, rules.NameSimpleHotStuff, rules.NameFastHotStuff}
@@ -159,15 +160,19 @@ func GenSteps(rt *rapid.T, cfg Config, o GenOpts) []Step {
 			steps[i].A = rapid.IntRange(0, 19682).Draw(rt, "part")
 		}
 		if steps[i].K == KActor {
-			steps[i].A = rapid.SampledFrom(actorWeights).Draw(rt, "act")
+			steps[i].A = rapid.SampledFrom(weightsList(o.ActorWeights)).Draw(rt, "act")
 		}
 	}
 	return steps
 }
 
-var actorWeights = func() []int {
-	w := map[int]int{AProposeHonest: 5, AProposeWeird: 5, AVote: 2, AAssembleQC: 3, ARelabelQC: 2, ATimeout: 3, ANewView: 4,
-		ARepeatQC: 1, AReplay: 2, AEquivocate: 3, AToggleFetch: 1, AVoteHonestly: 5, AForgedTC: 2, AProposeSkip: 4, AProposeStaleQC: 3}
+var defaultActorWeights = map[int]int{AProposeHonest: 5, AProposeWeird: 5, AVote: 2, AAssembleQC: 3, ARelabelQC: 2, ATimeout: 3, ANewView: 4,
+		ARepeatQC: 1, AReplay: 2, AEquivocate: 3, AToggleFetch: 1, AVoteHonestly: 5, AForgedTC: 2, AProposeSkip: 4, AProposeStaleQC: 3, AProposeOnForged: 4}
+
+func weightsList(w map[int]int) []int {
+	if w == nil {
+		w = defaultActorWeights
+	}
 	var l []int
 	for k := 0; k < aCount; k++ {
 		for i := 0; i < w[k]; i++ {
@@ -175,7 +180,7 @@ var actorWeights = func() []int {
 		}
 	}
 	return l
-}()
+}
 
 // Describe gives a short description of a configuration (evidence keys).
 func (cfg Config) Describe() string {
